@@ -545,7 +545,7 @@ class SigmaString(SigmaType):
             if filter_func(item):
                 result = func(item)
                 if result is not None:
-                    if interpret_special:
+                    if interpret_special and result != item:  # interpret only what was changed
                         if isinstance(result, str):
                             parts.extend(SigmaString(result).s)
                         else:
